@@ -76,7 +76,7 @@ func (c *Contract) Key() string {
 	return c.Target
 }
 
-var kwRe = regexp.MustCompile(`^(contract|extern|loop|lemma|spec|property|requires|ensures|invariant|assigns|let|decreases|inline|flag|go|end)\b\s*(.*)$`)
+var kwRe = regexp.MustCompile(`^(contract|extern|model|loop|lemma|spec|property|requires|ensures|invariant|assigns|let|decreases|inline|flag|go|end)\b\s*(.*)$`)
 
 func parseContractFile(path string) ([]*Contract, string, error) {
 	data, err := os.ReadFile(path)
@@ -126,7 +126,7 @@ func parseContractFile(path string) ([]*Contract, string, error) {
 		kw, rest := m[1], strings.TrimSpace(m[2])
 		// strip trailing line comment
 		switch kw {
-		case "contract", "extern", "loop", "lemma", "spec":
+		case "contract", "extern", "model", "loop", "lemma", "spec":
 			if cur != nil {
 				return nil, "", fmt.Errorf("%s:%d: missing 'end' before new block", path, i+1)
 			}
@@ -517,6 +517,14 @@ func (c *Contract) resolveSignature(ps *pkgSyntax, src map[string][]byte) error 
 		c.ParamText, c.ParamNames = splitParams(h[i:])
 	case "spec":
 		c.Target = "spec"
+	case "model":
+		// model <qualified target> <Go function declared in a spec block>
+		fs := strings.Fields(c.Header)
+		if len(fs) != 2 {
+			return fmt.Errorf("%s:%d: model header must be '<target> <funcname>'", c.File, c.Line)
+		}
+		c.Target = fs[0]
+		c.StubName = fs[1]
 	}
 	c.NParams, c.NResults, c.NExtra = len(c.ParamNames), len(c.ResultNames), len(c.ExtraNames)
 	return nil
@@ -711,6 +719,8 @@ func verifExists(lo, hi int, f func(i int) bool) bool { return true }
 func verifAssigns(ps ...any) {}
 func verifFresh(ps ...any) bool { return true }
 func verifDisjoint(a, b any) bool { return true }
+func verifSameSlice(a, b any) bool { return true }
+func verifSeparate(a, b any) bool { return true }
 func verifUnchanged(ps ...any) bool { return true }
 func verifIte[T any](c bool, a, b T) T { if c { return a }; return b }
 func verifAny[T any]() (x T) { return }
@@ -726,6 +736,8 @@ func genStubFile(ps *pkgSyntax, cs []*Contract) (string, error) {
 			for _, l := range c.Body {
 				body.WriteString(rewriteImplies(l) + "\n")
 			}
+			continue
+		case "model":
 			continue
 		case "lemma":
 			c.StubName = stubIdent("Lemma", strings.TrimPrefix(c.Target, "lemma:"))
